@@ -17,11 +17,13 @@ import (
 	mcp "trpc.group/trpc-go/trpc-mcp-go"
 
 	"verifharness/lib/kit"
+	"verifharness/lib/peer"
 	"verifharness/lib/racelog"
 	"verifharness/lib/vh"
 )
 
 var opsDone atomic.Int64
+var resumedStreams atomic.Int64
 
 func guard(f func()) {
 	defer func() { recover() }()
@@ -152,12 +154,26 @@ func serverWorkload(kind kit.Kind, seed int64, iters int) {
 					c.Close()
 					continue
 				}
-				if kind.IsStreamable() && kind.Stateful() {
-					c.OpenGet(ctx)
-				}
 				sessMu.Lock()
 				sessIDs = append(sessIDs, c.SessionID)
 				sessMu.Unlock()
+				var resumed []*peer.Stream
+				if kind.IsStreamable() && kind.Stateful() {
+					// listening streams that RESUME (Last-Event-ID) are opened while the senders above are already
+					// pushing to this session; each supersedes its predecessor, the plain stream comes last
+					for k := 0; k < 2; k++ {
+						hdr := map[string]string{"Accept": "text/event-stream", "Mcp-Session-Id": c.SessionID, "Last-Event-ID": strconv.Itoa(k + 1)}
+						if rs, _ := c.HP.OpenStream(ctx, "GET", in.URL(), hdr, 256); rs != nil {
+							go func() {
+								for range rs.Events {
+								}
+							}()
+							resumed = append(resumed, rs)
+							resumedStreams.Add(1)
+						}
+					}
+					c.OpenGet(ctx)
+				}
 				var cw sync.WaitGroup
 				for k := 0; k < 4; k++ {
 					cw.Add(1)
@@ -198,6 +214,9 @@ func serverWorkload(kind kit.Kind, seed int64, iters int) {
 					}
 				}
 				sessMu.Unlock()
+				for _, rs := range resumed {
+					rs.Close()
+				}
 				c.Close()
 			}
 		}(p)
@@ -345,6 +364,8 @@ func child() {
 	kind := kit.Kind(parts[1])
 	if w == "client:stdio-scripted" {
 		scriptedStdioClientWorkload(iters)
+	} else if parts[0] == "clientmut" {
+		clientMutWorkload(kind, iters, seed)
 	} else if parts[0] == "server" {
 		serverWorkload(kind, seed, iters)
 	} else {
@@ -352,6 +373,9 @@ func child() {
 	}
 	rep := vh.NewReporter()
 	rep.Count("operations", opsDone.Load())
+	if n := resumedStreams.Load(); n > 0 {
+		rep.Count("server_resumed_listening_streams_opened_under_push", n)
+	}
 	rep.Done()
 }
 
@@ -367,9 +391,11 @@ func main() {
 	if _, err := os.Stat(raceBin); err != nil {
 		r.Fatal("race-detector flavour of the check binary not found (%s)", raceBin)
 	}
-	workloads := []string{"server:S-json", "server:S-sse", "server:L-sse", "server:stdio", "client:S-json", "client:S-sse", "client:L-sse", "client:stdio", "client:stdio-scripted"}
+	workloads := []string{"server:S-json", "server:S-sse", "server:L-sse", "server:stdio", "client:S-json", "client:S-sse", "client:L-sse", "client:stdio", "client:stdio-scripted",
+		"clientmut:S-json", "clientmut:S-sse", "clientmut:L-sse", "clientmut:stdio"}
 	procs := []int{2, 4, 16}
 	reps := r.Pick(2, 5)
+	r.Sample(map[string]interface{}{"workloads": workloads, "gomaxprocs": procs, "repetitions": reps})
 	type job struct {
 		w     string
 		procs int
@@ -432,6 +458,9 @@ func main() {
 		}(i, j)
 	}
 	wg.Wait()
+	if r.Counter("mut_roots_answers_judged_server_level") == 0 {
+		r.Inconclusive("clientmut workloads: no roots/list answer was judged at all")
+	}
 	if !r.Quick() {
 		suiteUnderRace(r, all, harnessOnly)
 	}
@@ -442,9 +471,8 @@ func main() {
 		r.Inconclusive(fmt.Sprintf("race report without any library frame (harness or runtime): %s x%d", pair, n))
 	}
 	r.Count("distinct_race_pairs_in_library", int64(len(all)))
-	r.Sample(map[string]interface{}{"workloads": workloads, "gomaxprocs": procs, "repetitions": reps})
-	r.Finish("race-detector build of the harness; per child one workload x GOMAXPROCS in {2,4,16}: servers (Streamable JSON / SSE, legacy SSE with 3 ms keep-alives, stdio) serving 6 sessions x 4 goroutines of calls while entries are registered and unregistered, notifications are sent and broadcast, roots requests are issued, listening streams and sessions come and go, and handlers read and write the Session object they were handed; clients (Streamable JSON / SSE, legacy SSE, stdio) used from 6 calling goroutines while notification handlers and the roots provider change, state getters are read, the server pushes notifications, and TerminateSession / Close run with calls in flight. Every 'WARNING: DATA RACE' block is parsed from the GORACE log; reports are de-duplicated by the pair of innermost library functions. Distinct = (workload, GOMAXPROCS) that completed.",
-		[]string{"the race detector only sees races on paths the workload drives and interleavings that occur", "reports without any library frame are harness/runtime noise and are listed as inconclusive"})
+	r.Finish("race-detector build of the harness; per child one workload x GOMAXPROCS in {2,4,16}: servers (Streamable JSON / SSE, legacy SSE with 3 ms keep-alives, stdio) serving 6 sessions x 4 goroutines of calls while entries are registered and unregistered, notifications are sent and broadcast, roots requests are issued, listening streams (plain and resuming with Last-Event-ID while senders are pushing to the session) and sessions come and go, and handlers read and write the Session object they were handed; clients (Streamable JSON / SSE, legacy SSE, stdio) used from 6 calling goroutines while notification handlers and the roots provider change, state getters are read, the server pushes notifications, and TerminateSession / Close run with calls in flight; clients of the same four kinds holding a DefaultRootsProvider (clientmut:*, mutators.go) whose application goroutines AddRoot / RemoveRoot (unique URIs, no I/O or shared atomics in those goroutines), swap SetRootsProvider between the provider and two delegating wrappers, register / unregister notification handlers for the methods that are arriving, send roots/list_changed, read the getters (stdio: process info, RestartProcess every other round) while 4 goroutines x 12 calls make the server issue roots/list (tool rootsprobe returns the URIs ListRoots gave it) and the server pushes notifications, and server-side goroutines register / unregister notification handlers on all three server kinds, resource templates, resources lists, tools and read GetTools / GetTool / GetActiveSessions / SendFilteredNotification. Value oracle for roots snapshots (provider level: each GetRoots seen by the delegating wrapper; server level: each rootsprobe answer, window = around CallTool): no URI twice, only URIs whose AddRoot began before the answer was received, every URI whose AddRoot returned before the request was issued and whose RemoveRoot had not begun when the answer was received, no URI whose RemoveRoot returned before the request was issued (monotonic-clock stamps, 20 us slack counted as concurrent). Every 'WARNING: DATA RACE' block is parsed from the GORACE log; reports are de-duplicated by the pair of innermost library functions. Distinct = (workload, GOMAXPROCS) that completed; for clientmut additionally (kind, GOMAXPROCS) with at least one roots/list answer judged and (kind) with answers whose window overlapped an AddRoot / RemoveRoot call.",
+		[]string{"the race detector only sees races on paths the workload drives and interleavings that occur", "reports without any library frame are harness/runtime noise and are listed as inconclusive", "roots value oracle: the process' monotonic clock orders an event that returned before another one began (stamps closer than 20 us are treated as concurrent)", "Server.SetMethodNameModifier is taken to be a set-up call (plain field write) and is not driven while serving"})
 }
 
 func head(s string) string {
